@@ -71,8 +71,19 @@ def generate(con, index=None, live=None, canary=False):
     rep = FunctionReport(con.key)
     t0 = time.time()
     try:
-        fkey = getattr(con, "source_key", None) or con.key.split("#")[0]
-        info = index.func(fkey)
+        if getattr(con, "lemma_src", None):
+            # a lemma over real functions: a tiny harness body (in /verif) that only *calls* repo code
+            import ast as _ast
+            from .source import FuncInfo
+            m = index.module(con.lemma_module)
+            tree = _ast.parse(con.lemma_src)
+            node = tree.body[0]
+            info = FuncInfo(con.lemma_module, "lemma_" + node.name, node, None, "<lemma>", con.lemma_src.split("\n"))
+            for dep in getattr(con, "lemma_deps", []):
+                index.func(dep)      # anchors must exist
+        else:
+            fkey = getattr(con, "source_key", None) or con.key.split("#")[0]
+            info = index.func(fkey)
     except AnchorLost as e:
         rep.status, rep.reason = "anchor-lost", str(e)
         return rep
